@@ -120,6 +120,7 @@ class H(S.Hooks):
         finally:
             fresh.close()
         stats["oracle_final_queries"] += len(mine)
+        first = None
         for q, v in mine.items():
             w = theirs.get(q)
             if w is not None and w != v and not ("Deep" in w or "Deep" in v):
@@ -130,10 +131,17 @@ class H(S.Hooks):
                     last = ["eval_item", p, int(key), cn, arg]
                 else:
                     last = ["eval", p, cn, arg]
-                out.fail("%s returns %s but a model to which only the edits were applied returns %s" % (q, v, w),
-                         S.hist_json(ops + [last]),
-                         key=classify(deep_counter.count > deep0, live, (p, cn), v, w, ops))
-                break
+                f = ("%s returns %s but a model to which only the edits were applied returns %s" % (q, v, w),
+                     S.hist_json(ops + [last]), classify(deep_counter.count > deep0, live, (p, cn), v, w, ops))
+                # one report per history: the first difference that is not a known finding, else the first one
+                # (a known finding in front must not hide another difference of the same history)
+                if first is None:
+                    first = f
+                if f[2] is None:
+                    first = f
+                    break
+        if first is not None:
+            out.fail(first[0], first[1], key=first[2])
 
 
 # ----------------------------------------------------------------------------- value layer (mechanism model)
@@ -238,7 +246,7 @@ def scenario_cases(ctx):
     cells_cases = cell_scenarios()
     if ctx.tier != "thorough":
         cells_cases = ctx.rng("scenarios-cells").sample(cells_cases, 20)
-    return cases + cells_cases
+    return cases + cells_cases + input_then_redefined_cases()      # 12 small cases
 
 
 def cell_scenarios():
@@ -288,6 +296,15 @@ def cell_scenarios():
                                           edit, "space%d" % sp, "cached" if c0_cached else "uncached",
                                           "/input" if with_input else "", "/catching" if catching else "")})
     return cases
+
+
+def input_then_redefined_cases():
+    """exec_props.input_then_redefined_cases with an edit of the reference the recomputed element read by name as
+    the last step (changed, deleted, deleted and created again)"""
+    from .. import exec_props as X
+    return X.input_then_redefined_cases({
+        "change": lambda R: [["setref", str(R), "5"]], "delete": lambda R: [["delref", str(R)]],
+        "recreate": lambda R: [["delref", str(R)], ["setref", str(R), "6"]]})
 
 
 def run(ctx, out):
